@@ -168,11 +168,23 @@ def gil_released(ctx, rep, rule):
             ok = False
             why = "called from %s, which is not a closure" % body.path.split("::")[-1]
             if body.kind == "Closure":
-                feed = _cells.closure_feed(facts, body)
-                if feed is not None:
+                # the closure itself, or a closure it is nested in (`a().and_then(|()| self._recv_inner(..))` inside the
+                # closure given to allow_threads), is what allow_threads runs
+                cur = body
+                for _ in range(4):
+                    feed = _cells.closure_feed(facts, cur)
+                    if feed is None:
+                        break
                     cp = callee_path(feed[2].term) or ""
-                    ok = cp.endswith("::allow_threads")
                     why = "the closure is handed to %s" % cp
+                    if cp.endswith("::allow_threads"):
+                        ok = True
+                        break
+                    lex = cur.path.rsplit("::{closure#", 1)[0] if "::{closure#" in cur.path else None
+                    parent = facts.bodies.get(lex) if lex else None
+                    if parent is None or parent.kind != "Closure":
+                        break
+                    cur = parent
             rep.check(rule, "%s|_recv_inner under allow_threads" % body.path, ok, "interpreter lock released around the blocking receive",
                       "the blocking receive runs while holding the interpreter lock (%s)" % why, body.loc(b.term["line"]), obligation=True)
     if n < 2:
